@@ -110,12 +110,12 @@ func runRegistry(a *Analyzer, r *Results) {
 							continue
 						}
 						gev := a.NewEval(ge, r)
-						gev.RequireAny("K1.exact", props("C15", "C12", "C05"), k1exact, "",
+						gev.RequireAny("K1.exact", props("C15", "C12", "C05", "C19"), k1exact, "",
 							[]*Atom{Truth(Field(vc, "shutdown"))}, []*Atom{Truth(older(hv, newest))})
 					}
 					continue
 				}
-				ev.RequireAny("K1.exact", props("C15", "C12", "C05"), k1exact, "",
+				ev.RequireAny("K1.exact", props("C15", "C12", "C05", "C19"), k1exact, "",
 					[]*Atom{Truth(Field(vc, "shutdown"))}, []*Atom{Truth(older(hv, newest))})
 				continue
 			}
